@@ -36,10 +36,56 @@ func dirtyMarkSurvives(c *Ctx, rule string, fn *ssa.Function) {
 		mu, ok := in.(*ssa.MapUpdate)
 		return ok && IsLoadOfField(mu.Map, dirty)
 	}
+	// functions of the package that (transitively, statically) delete from h.dirty: a call of
+	// one of them may erase marks made earlier on the path
+	var pkgFns []*ssa.Function
+	for _, f := range p.FuncsOfPkg(ldPkg) {
+		pkgFns = append(pkgFns, f)
+	}
+	deleters := map[*ssa.Function]bool{}
+	for changed := true; changed; {
+		changed = false
+		for _, f := range pkgFns {
+			if deleters[f] || f == fn {
+				continue
+			}
+			for _, ci := range CallsIn(f) {
+				cc := ci.Common()
+				erases := false
+				if b, ok := cc.Value.(*ssa.Builtin); ok && b.Name() == "delete" && IsLoadOfField(cc.Args[0], dirty) {
+					erases = true
+				} else if cf := CalleeFunc(cc); cf != nil && deleters[cf] {
+					erases = true
+				}
+				if !erases {
+					continue
+				}
+				// only if the callee can return without re-marking after that erase
+				// (makeBottomRanges moves the mark from the range to its divided child)
+				in, ok := ci.(ssa.Instruction)
+				if !ok {
+					continue
+				}
+				rr := Reach(f, ReachOpts{From: in, Cut: isMark})
+				for _, ret := range Returns(f) {
+					if rr.Reachable(ret) {
+						deleters[f] = true
+					}
+				}
+				if deleters[f] {
+					changed = true
+					break
+				}
+			}
+		}
+	}
 	isBadDelete := func(in ssa.Instruction) bool {
 		cc, ok := in.(*ssa.Call)
 		if !ok {
 			return false
+		}
+		if cf := CalleeFunc(&cc.Call); cf != nil && deleters[cf] {
+			return true
 		}
 		b, ok := cc.Call.Value.(*ssa.Builtin)
 		if !ok || b.Name() != "delete" || !IsLoadOfField(cc.Call.Args[0], dirty) {
